@@ -356,7 +356,7 @@ def split_run(cases, runner_impl, runner_model, shards=None):
     pass
 
 
-def run_both(bdir, cases, tag, shards=None, timeout=3600, model=True, keys=None):
+def run_both(bdir, cases, tag, shards=None, timeout=3600, model=True, keys=None, retain=True):
     """cases: list of case lines (str).  Runs impl and model on the same cases (sharded over the
     cores), returns dict: {n, compared_tokens, mismatches: [(case_line, first differing key, impl, model)],
     impl_traces, model_traces, crashes}"""
@@ -395,8 +395,11 @@ def run_both(bdir, cases, tag, shards=None, timeout=3600, model=True, keys=None)
             om = '[timeout]'
         ti, _ = parse_trace(cp + '.impl')
         tm, _ = parse_trace(cp + '.model')
-        result['impl'].update(ti)
-        result['model'].update(tm)
+        # traces are kept for the oracles (retain) -- the model's only for small runs (replay) to bound the memory of the thorough tier
+        if retain:
+            result['impl'].update(ti)
+            if len(cases) <= 2000:
+                result['model'].update(tm)
         if pi.returncode != 0:
             # find the first case without output: that is the crashing one
             done = set(ti.keys())
